@@ -116,6 +116,7 @@ func cmdRun(args []string) int {
 	x.Unwind = *unwind
 	x.PanicsAreFailures = *panics
 	x.Known = loadKnown()
+	x.Budget = time.Duration(envInt("VX_BUDGET", 120)) * time.Second
 	if *logq {
 		f, _ := os.Create("/tmp/vx-queries.smt2")
 		defer f.Close()
